@@ -421,7 +421,7 @@ async def run_session(sc):
             pass
 
     async def body():
-        async with sse_client(SSEParameters(url=BASE, timeout=sc["timeout"])) as (r, wr):
+        async with sse_client(SSEParameters(url=BASE, timeout=sc["timeout"], **(sc.get("params") or {}))) as (r, wr):
             out["enter"] = ["live", now()]
             out["wr"], out["rd"] = wr, r
             out["collector"] = asyncio.create_task(collect(r))
@@ -559,7 +559,19 @@ def est_cases(ctx):
                 continue
             cases.append({"label": "slow-announcement", "timeout": timeout, "announce_at": ta,
                           "script": {"connect": ["status", 0.02, 200], "end": None, "stream": [[ta, EP_STD]]}})
-    return cases
+    # the optional, documented connection parameters must not change live-or-raise: every way of NOT getting an announcement,
+    # and one announced case, again with a configured session id / bearer token / extra headers
+    extra = []
+    for sc in cases:
+        if sc["label"] in ("http-status", "connect-error", "stream-closed-silent", "never-announcing", "empty-url", "connect-hang") \
+                or (sc["label"] == "announced" and len(extra) % 7 == 0):
+            for params in ({"session_id": "sess-42"}, {"session_id": "sess-42", "bearer_token": "tok", "headers": {"X-A": "b"}}):
+                if sc["timeout"] > 5.0 and sc["label"] != "http-status":
+                    continue
+                e = dict(sc)
+                e["params"] = params
+                extra.append(e)
+    return cases + extra
 
 
 def est_to_model(sc):
@@ -587,8 +599,11 @@ def check_establishment(ctx, model, cfg):
     spec_reqs = []
     for sc, o, m in zip(cases, obs, mres):
         case = {"kind": "establishment", "label": sc["label"], "timeout": sc["timeout"], "script": _jsonable(sc["script"])}
+        if sc.get("params"):
+            case["params"] = sc["params"]
         ctx.case(case, nontrivial=True)
         ctx.count("est:" + sc["label"])
+        ctx.count("est-params:" + ("+".join(sorted(sc["params"])) if sc.get("params") else "defaults"))
         if o["enter"]:
             impl = [0, o["url"], o["enter"][1]]
         else:
@@ -1054,7 +1069,7 @@ def replay(ctx, data):
         print("REPRODUCED" if bad else "not reproduced")
         return 1 if bad else 0
     if kind == "establishment":
-        sc = {"timeout": case["timeout"], "script": case["script"], "actions": []}
+        sc = {"timeout": case["timeout"], "script": case["script"], "actions": [], "params": case.get("params")}
         o = session(sc)
         print("enter:", o["enter"], "exit:", o["exit"], "leftovers:", o["left_tasks"], o["clients_open"], o["streams_open"])
         klass = data.get("class")
